@@ -12,7 +12,7 @@ import os
 import re
 import z3
 
-from .core import Agg, SymEnum, Ref, SeqV, Opaque, UNIT, FnItem, Executor, Path, MirFrame, vkey as _vk
+from .core import zstr, Agg, SymEnum, Ref, SeqV, Opaque, UNIT, FnItem, Executor, Path, MirFrame, vkey as _vk
 from .mir import MirUnsupported
 from . import contracts as C
 from .contracts import some, NONE, ok, err, is_variant, payload, fork_variant, str_eq, call_closure
@@ -500,7 +500,7 @@ class Css:
             arr = exe.deref_all(path, args[1])
             if not (isinstance(tmpl, z3.ExprRef) and z3.is_string_value(tmpl)):
                 raise MirUnsupported('format template %r' % (tmpl,))
-            raw = tmpl.as_string()
+            raw = zstr(tmpl)
             # z3 escapes non-printable chars as \u{..}
             raw = re.sub(r'\\u\{([0-9a-fA-F]+)\}', lambda m: chr(int(m.group(1), 16)), raw)
             pieces, i, argi = [], 0, 0
